@@ -52,6 +52,10 @@ def _work(chunk):
         held = None
         stages = [("input", None)] + [(s, op) for s, op in (("closed", scfg.join_returns), ("loop", scfg.restructure_loop),
                                                               ("branch", scfg.restructure_branch))]
+        if tag == "G9-multiway":
+            # restructuring is specified for closed CFGs with at most two successors per block (what the front
+            # ends produce); graphs with more are enumerated as the dict / YAML front end delivers them
+            stages = stages[:2]
         for stage, op in stages:
             if op is not None:
                 try:
